@@ -46,6 +46,25 @@ def ops(a):
                     continue
                 if bool(r) != op(x, y):
                     msgs.append('%s(%r) %s %s(%r) is %r, decimal-degree comparison %r' % (lc, x, nm, rc, y, r, op(x, y)))
+    # operands a few 1e-7 arc-seconds apart: far above the 1e-8" tolerance, so every comparison must follow the decimal-degree values
+    for lc, rc in itertools.product(CLASSES, CLASSES):
+        for x in (12.582438888888887, -0.5062, 179.99999999, -33.25):
+            for dsec in (1e-7, 5e-7, -2e-7):
+                p, q = _mk(A, lc, x), _mk(A, rc, x + dsec / 3600)
+                if p is None or q is None:
+                    continue
+                dp, dq = F(p.dec()), F(q.dec())
+                if abs(dp - dq) * 3600 < F(3, 10 ** 8):
+                    continue
+                for nm, op in (('==', operator.eq), ('!=', operator.ne), ('<', operator.lt), ('>', operator.gt)):
+                    try:
+                        r = op(p, q)
+                    except Exception as ex:  # noqa
+                        msgs.append('%r %s %r raised %r' % (p, nm, q, ex))
+                        continue
+                    if bool(r) != op(dp, dq):
+                        msgs.append('%r %s %r is %r although the operands are %.1e arc-seconds apart (decimal-degree comparison: %r)'
+                                    % (p, nm, q, r, float(abs(dp - dq) * 3600), op(dp, dq)))
     for lc in CLASSES:
         for x in VALUES:
             p = _mk(A, lc, x)
@@ -79,6 +98,30 @@ def ops(a):
                     unit = {'DECAngle': 1, 'GONAngle': F(9, 10), 'DMSAngle': F(1, 3600), 'DDMAngle': F(1, 60)}[lc]      # degrees per unit of the rounded field
                     if type(r).__name__ != lc or abs(F(r.dec()) - F(p.dec())) > unit * F(1, 2 * 10 ** n) + F(1, 10 ** 12) or (r.dec() < 0) != (p.dec() < 0) and r.dec() != 0:
                         msgs.append('round(%s(%r), %d) = %r' % (lc, x, n, r))
+    # results that land within rounding of a whole degree / minute (float noise at a boundary): sums and divide-then-multiply round trips
+    for cls in ('DMSAngle', 'DDMAngle'):
+        for x in (1.0, 2.0, 13.0, 359.0, -1.0, -47.0):
+            for k in (49, 7, 3, 11):
+                p0 = _mk(A, cls, x)
+                try:
+                    r = (p0 / k) * k
+                except ValueError:
+                    continue
+                if type(r).__name__ != cls or abs(F(r.dec()) - F(x)) > TOL:
+                    msgs.append('(%r / %d) * %d = %r, decimal-degree result %r' % (p0, k, k, r, x / k * k))
+        for parts in ((1 / 60, 1 / 60, 58 / 60), (0.25, 0.5, 0.25), (10 + 59 / 60, 59 / 3600, 1 / 3600)):
+            p0 = _mk(A, cls, parts[0])
+            for rc in CLASSES:
+                q1, q2 = _mk(A, rc, parts[1]), _mk(A, rc, parts[2])
+                if q1 is None or q2 is None:
+                    continue
+                try:
+                    r = p0 + q1 + q2
+                except ValueError:
+                    continue
+                e = F(p0.dec()) + F(q1.dec()) + F(q2.dec())
+                if type(r).__name__ != cls or abs(F(r.dec()) - e) > 2 * TOL:
+                    msgs.append('%r + %r + %r = %r, decimal-degree result %r' % (p0, q1, q2, r, float(e)))
     # rounding at the carry boundaries of the sexagesimal classes (seconds / minutes that round up to 60 in minute 59)
     for sign in (True, False):
         for (d, m, sec) in ((12, 59, 59.7), (0, 59, 59.5), (12, 34, 59.96), (12, 59, 59.9999996), (359, 59, 59.999)):
